@@ -580,6 +580,12 @@ func (p *Parser) parseProjectionRHS(bindingPower int) (ASTNode, error) {
 	if bindingPowers[current] < 10 {
 		return ASTNode{nodeType: ASTIdentity}, nil
 	} else if current == tLbracket {
+		// Only a bracket specifier ([n], [*] or a slice) can follow a
+		// projection directly; a multi-select list needs a dot.
+		next := p.lookahead(1)
+		if next != tNumber && next != tColon && !(next == tStar && p.lookahead(2) == tRbracket) {
+			return ASTNode{}, p.syntaxError("Expected an index, a slice or [*]")
+		}
 		return p.parseExpression(bindingPower)
 	} else if current == tFilter {
 		return p.parseExpression(bindingPower)
